@@ -144,7 +144,7 @@ theorem increaseSupply_spec {s s' : State} {m : Marker} {n : Int}
       s'.bank.supply m.denom = s.bank.supply m.denom + n ∧
       BalDelta s.bank s'.bank (acct m.denom) m.denom n := by
   simp only [increaseSupply, bind_ok, check_ok, pure_ok] at h
-  obtain ⟨_, hmax, s1, hs1, b, hb, rfl⟩ := h
+  obtain ⟨_, _, _, hmax, s1, hs1, b, hb, rfl⟩ := h
   have hmax' : s.bank.supply m.denom + n ≤ s.maxSupply := by simpa using hmax
   by_cases hf : m.fixed = true
   · simp only [hf, if_true, bind_ok, pure_ok] at hs1
